@@ -173,9 +173,19 @@ inline void fdCompare(Ctx &c, const std::string &mon, const Problem &p, const Gr
         double t = trel * sc;
         double fmax = 0;
         double fd = fd4(p, {{x, 1.0}}, t, f, &fmax);
+        double trunc = 0;
+        if (x.group == 0)
+        {
+            // durations enter non-linearly: a second, finer stencil estimates the oracle's own truncation error
+            double fd2 = fd4(p, {{x, 1.0}}, t / 2, f, &fmax);
+            trunc = std::fabs(fd - fd2);
+            fd = fd2;
+        }
         // rounding scale of f at the outermost stencil points (the perturbation itself may dominate it)
         double phiAbs = std::max(phiBase, std::max(scaleFn(shifted(p, {{x, 1.0}}, 2 * t)), scaleFn(shifted(p, {{x, 1.0}}, -2 * t))));
-        double noise = (1e5 * 2.2e-16 / trel + (x.group == 0 ? 1e-8 : 0.0)) * (phiAbs + fmax) / sc;
+        double noise = (1e5 * 2.2e-16 / (x.group == 0 ? trel / 2 : trel) + (x.group == 0 ? 1e-9 : 0.0)) * (phiAbs + fmax) / sc + 2 * trunc;
+        if (getenv("VF_DEBUG"))
+            fprintf(stderr, "  %s[%d,%d] analytic=%.12g fd=%.12g noise=%.3g scale=%.3g\n", kGroupNames[x.group], x.i, x.j, gradAt(an, x), fd, noise, sc);
         acc.add(x.group, gradAt(an, x), fd, noise);
         if (getenv("VF_DEBUG"))
             fprintf(stderr, "  %s[%d,%d] analytic=%.12g fd=%.12g noise=%.3g scale=%.3g\n", kGroupNames[x.group], x.i, x.j, gradAt(an, x), fd, noise, sc);
@@ -210,8 +220,15 @@ inline void fdDirectional(Ctx &c, const std::string &mon, const Problem &p, cons
         double fmax = 0;
         const double trel = (g == 0) ? 1e-3 : 0.25;
         double fd = fd4(p, dir, trel, f, &fmax);
+        double trunc = 0;
+        if (g == 0)
+        {
+            double fd2 = fd4(p, dir, trel / 2, f, &fmax);
+            trunc = std::fabs(fd - fd2);
+            fd = fd2;
+        }
         double phiAbs = std::max(phiBase, std::max(scaleFn(shifted(p, dir, 2 * trel)), scaleFn(shifted(p, dir, -2 * trel))));
-        noise = (1e5 * 2.2e-16 / trel + (g == 0 ? 1e-8 * dir.size() : 0.0)) * (phiAbs + fmax);
+        noise = (1e5 * 2.2e-16 / (g == 0 ? trel / 2 : trel) + (g == 0 ? 1e-9 * dir.size() : 0.0)) * (phiAbs + fmax) + 2 * trunc;
         double d = std::fabs(dot - fd);
         double ex = std::max(0.0, d - noise);
         double m = std::max(mag, std::fabs(fd));
@@ -791,10 +808,10 @@ inline void runC14(Ctx &c)
                         Cexp(i * nc, j) += (LD)w(j);
                 // translation perturbs the waypoint differences by rounding of size eps*|P+w|; allow for it
                 double pmax = p.P.cwiseAbs().maxCoeff() + wmax;
-                double tol = 1e-10 + 2e-13 * pmax / std::max(S, 1e-300) * 1e3;
-                c.check("C14.translation.coeffs", coeffError(q, Cq, Cexp, 1e-3) / (tol / 1e-10), 1e-10, gkey(p, "translation"));
-                c.check("C14.translation.energy_unchanged", scaledDiff(sq->energy(), E, (double)Eabs) / (tol / 1e-10), 1e-10, gkey(p, "translation"));
-                c.check("C14.translation.gradients_unchanged", std::max(gradsRel(sq->energyGrad(false), eg, egS), gradsRel(sq->propagate(u.gC, u.gT, false), pg, pgS)) / (tol / 1e-10), 1e-10, gkey(p, "translation"));
+                double tol = 1e-8 * (1.0 + pmax / std::max(S, 1e-300));
+                c.check("C14.translation.coeffs", coeffError(q, Cq, Cexp, 1e-3) / tol, 1.0, gkey(p, "translation"));
+                c.check("C14.translation.energy_unchanged", scaledDiff(sq->energy(), E, (double)Eabs) / tol, 1.0, gkey(p, "translation"));
+                c.check("C14.translation.gradients_unchanged", std::max(gradsRel(sq->energyGrad(false), eg, egS), gradsRel(sq->propagate(u.gC, u.gT, false), pg, pgS)) / tol, 1.0, gkey(p, "translation"));
                 c.event("relation.translation");
                 break;
             }
@@ -811,10 +828,11 @@ inline void runC14(Ctx &c)
                 }
                 auto sq = makeSplineDur(q);
                 MatrixXld Cexp = Cld * (LD)lam;
-                const double tol = pow2 ? 1e-12 : 1e-10;
-                const double f = tol / 1e-10;
-                c.check("C14.scale_data.coeffs", coeffError(q, sq->coeffs(), Cexp, 1e-3) / f, 1e-10, gkey(p, "scale_data"));
-                c.check("C14.scale_data.energy", scaledDiff(sq->energy(), E * lam * lam, (double)Eabs * lam * lam) / f, 1e-10, gkey(p, "scale_data"));
+                // powers of two: every operation is scaled exactly; arbitrary reals: rounding times the solver's amplification
+                const double tol = pow2 ? 1e-12 : 1e-8;
+                const std::string sfx = pow2 ? ".pow2" : ".real";
+                c.check("C14.scale_data.coeffs" + sfx, coeffError(q, sq->coeffs(), Cexp, 1e-3), tol, gkey(p, "scale_data"));
+                c.check("C14.scale_data.energy" + sfx, scaledDiff(sq->energy(), E * lam * lam, (double)Eabs * lam * lam), tol, gkey(p, "scale_data"));
                 Grads e2 = sq->energyGrad(false), ex = eg;
                 ex.inner *= lam;
                 ex.start *= lam;
@@ -822,13 +840,13 @@ inline void runC14(Ctx &c)
                 ex.times *= lam * lam;
                 double w = std::max(relMat(e2.inner, ex.inner, egS * std::fabs(lam)), std::max(relMat(e2.start, ex.start, egS * std::fabs(lam)), relMat(e2.end, ex.end, egS * std::fabs(lam))));
                 w = std::max(w, relMat(e2.times, ex.times, (eg.times.size() ? eg.times.cwiseAbs().maxCoeff() : 0) * lam * lam));
-                c.check("C14.scale_data.energy_gradients", w / f, 1e-10, gkey(p, "scale_data"));
+                c.check("C14.scale_data.energy_gradients" + sfx, w, tol, gkey(p, "scale_data"));
                 // propagation with the same upstream: the map is linear in the data, so point/boundary gradients are unchanged
                 Grads p2 = sq->propagate(u.gC, u.gT, false), px = pg;
                 px.times *= lam;
                 double w2 = std::max(relMat(p2.inner, px.inner, pgS), std::max(relMat(p2.start, px.start, pgS), relMat(p2.end, px.end, pgS)));
                 w2 = std::max(w2, relMat(p2.times, px.times, (pg.times.size() ? pg.times.cwiseAbs().maxCoeff() : 0) * std::fabs(lam)));
-                c.check("C14.scale_data.propagated_gradients", w2 / f, 1e-10, gkey(p, "scale_data"));
+                c.check("C14.scale_data.propagated_gradients" + sfx, w2, tol, gkey(p, "scale_data"));
                 c.event(pow2 ? "relation.scale_data_pow2" : "relation.scale_data_real");
                 break;
             }
@@ -850,20 +868,22 @@ inline void runC14(Ctx &c)
                     for (int k = 0; k < nc; ++k)
                         for (int j = 0; j < p.dim; ++j)
                             Cexp(i * nc + k, j) = Cld(i * nc + k, j) / powl((LD)mu, k);
-                const double tol = pow2 ? 1e-12 : 1e-10;
-                const double f = tol / 1e-10;
-                c.check("C14.scale_time.coeffs", coeffError(q, sq->coeffs(), Cexp, 1e-3) / f, 1e-10, gkey(p, "scale_time"));
+                const double tol = pow2 ? 1e-12 : 1e-8;
+                const std::string sfx = pow2 ? ".pow2" : ".real";
+                c.check("C14.scale_time.coeffs" + sfx, coeffError(q, sq->coeffs(), Cexp, 1e-3), tol, gkey(p, "scale_time"));
                 double fac = std::pow(mu, -(2 * sO - 1));
-                c.check("C14.scale_time.energy", scaledDiff(sq->energy(), E * fac, (double)Eabs * fac) / f, 1e-10, gkey(p, "scale_time"));
+                c.check("C14.scale_time.energy" + sfx, scaledDiff(sq->energy(), E * fac, (double)Eabs * fac), tol, gkey(p, "scale_time"));
                 // same curve: position at corresponding times
                 double w = 0;
+                Scales scs = localScales(p, C);
                 for (int i = 0; i < p.N; ++i)
                 {
                     double fr = r.uni(0, 1);
                     VectorXd a = s->segEval(i, fr * p.T[i], 0), b = sq->segEval(i, fr * q.T[i], 0);
-                    w = std::max(w, relMat(a, b, a.cwiseAbs().maxCoeff() + (double)localScales(p, C).sglobal[0] + 1e-300));
+                    for (int j = 0; j < p.dim; ++j)
+                        w = std::max(w, scaledDiff(a(j), b(j), std::fabs(p.P(i, j)) + std::fabs(p.P(i + 1, j)) + (double)scs.sigma(i, j) + 1e-3 * (double)scs.sglobal[j]));
                 }
-                c.check("C14.scale_time.same_curve", w, 1e-9, gkey(p, "scale_time"));
+                c.check("C14.scale_time.same_curve" + sfx, w, pow2 ? 1e-11 : 1e-8, gkey(p, "scale_time"));
                 std::vector<double> cq = sq->cumTimes();
                 c.require("C14.scale_time.start_time_kept", bitEqual(cq[0], p.t0), gkey(p, "scale_time"));
                 c.event(pow2 ? "relation.scale_time_pow2" : "relation.scale_time_real");
